@@ -33,7 +33,8 @@ FAULTS = ['dup name', 'dup name root', 'transitions on final', 'transitions on h
           'unknown key statechart', 'unknown key state', 'unknown key transition', 'unknown key contract', 'unknown type',
           'priority word', 'priority list', 'priority mapping', 'both kinds', 'missing statechart name', 'missing state name',
           'missing root state', 'transitions mapping', 'states scalar', 'contract scalar', 'parallel states scalar',
-          'contract item scalar']
+          'contract item scalar', 'statechart not a mapping', 'root state not a mapping', 'state item scalar',
+          'transition item scalar']
 REQUIRED_COUNTERS = ['permissive_import_of_same_text_first', 'valid_documents_accepted', 'faulted_documents_rejected', 'soundness_checks'] + ['fault_' + f for f in FAULTS]
 
 
@@ -121,6 +122,9 @@ def single_faults(doc):
             yield ('priority mapping', kind, idx, at(addt({'event': 'e', 'priority': {'a': 1}})))
             yield ('unknown key transition', kind, idx, at(addt({'event': 'e', 'bogus': 1})))
             yield ('transitions mapping', kind, idx, at(lambda s2, p2, d2: s2.__setitem__('transitions', {'event': 'e'})))
+            yield ('transition item scalar', kind, idx, at(lambda s2, p2, d2, v=(3, None, 'e')[idx % 3]: s2.setdefault('transitions', []).append(v)))
+            if kind == 'compound':
+                yield ('state item scalar', kind, idx, at(lambda s2, p2, d2, v=(3, None, 'x')[idx % 3]: s2['states'].append(v)))
             yield ('unknown key contract', kind, idx, at(addt({'event': 'e', 'contract': [{'sometimes': 'True'}]})))
         if kind == 'orthogonal':
             yield ('history under orthogonal', kind, idx,
@@ -149,6 +153,10 @@ def single_faults(doc):
     yield ('missing root state', '-', -1, lambda d2: d2['statechart'].pop('root state'))
     yield ('unknown key statechart', '-', -1, lambda d2: d2['statechart'].__setitem__('bogus', 1))
     yield ('unknown key top', '-', -1, lambda d2: d2.__setitem__('bogus', 1))
+    # sections of the wrong shape (a statechart section that is empty / a list / a scalar lacks both name and root state)
+    for j, v in enumerate((None, [], 3, 'x')):
+        yield ('statechart not a mapping', '-', -10 - j, lambda d2, v=v: d2.__setitem__('statechart', v))
+        yield ('root state not a mapping', '-', -20 - j, lambda d2, v=v: d2['statechart'].__setitem__('root state', v))
     yield ('history root', '-', -1, lambda d2: d2['statechart'].__setitem__('root state', {'name': 'R', 'type': 'deep history'}))
     yield ('history root', '-', -2, lambda d2: d2['statechart']['root state'].__setitem__('type', 'shallow history'))
 
